@@ -1,6 +1,8 @@
 """Loops: concrete execution while the condition is decided, otherwise one
 symbolic iteration (havoc + affine induction variables)."""
+import os
 from .facts import AnalysisBroken, where
+DEBUG = bool(os.environ.get('LLTD_DEBUG_LOOPS'))
 from .terms import (C, ZERO, ONE, UNINIT, Dom, INF, Lin, lin_of, term_of_lin, is_const, short)
 from .state import Unsupported
 from . import mem
@@ -77,13 +79,46 @@ class LoopMachine(Machine):
             out.append((s2, t[1] != 0))
         return out
 
+    def head_sig(self, st):
+        """Abstract signature of a state at the head of an endless loop (`for (;;)` re-evaluation loops - the iterative
+        spelling of a tail call): the constants and small finite sets it holds.  Same rule as the recursion cut in
+        inline(): re-entering with a signature already explored contributes nothing new (least fix-point)."""
+        sig = []
+        for oid, o in sorted(st.objs.items()):
+            if o.kind in ('str', 'global') or o.weak:
+                continue
+            cs = []
+            for k, (w, ct) in sorted(o.cells.items(), key=repr):
+                ct = st.canon(ct)
+                if is_const(ct):
+                    cs.append((k, ct))
+                elif w <= 2 and ct[0] not in ('ptr', 'pset', 'fn'):
+                    dd = st.dom(ct)
+                    if dd.size() <= 4:
+                        cs.append((k, repr(dd)))
+            sig.append((oid, tuple(cs)))
+        return tuple(sig)
+
     def run_concrete(self, st, s, cond, inc, body, cond_first):
         cur = [st]
         exits = []
         first = True
+        seen_heads = set()
         for it in range(MAX_CONCRETE_ITERS + 1):
             if it == MAX_CONCRETE_ITERS:
                 raise Undecided()
+            if cond is None and inc is None:
+                fresh = []
+                for s2 in cur:
+                    sg = self.head_sig(s2)
+                    if sg in seen_heads:
+                        s2.tags['loop_cut'] = s2.tags.get('loop_cut', 0) + 1
+                        continue
+                    seen_heads.add(sg)
+                    fresh.append(s2)
+                cur = fresh
+                if not cur:
+                    break
             run = []
             if cond is not None and (cond_first or not first):
                 for s2 in cur:
@@ -157,6 +192,46 @@ class LoopMachine(Machine):
                         exitf.append(s_f)
             cont = c2
         return cont, brk, ret, exitf
+
+    def disequality_invariant(self, entry, lid, mods, smashed, induct, cond):
+        """`while (p != end)` / `for (i = a; i != n; i += s)`: with closed forms the condition reads a*k + c != 0.  If c is a
+        constant with a*0 + c on the far side of 0 and a | c, the walk reaches equality before passing it, so
+        a*k + c <= 0 (a > 0) resp. >= 0 (a < 0) holds at the head of every iteration.  -> Lin fact or None"""
+        kterm = ('sym', 'iter:' + lid, 0, INF)
+        saved_obs, saved_quiet, saved_log = self.obs, getattr(self, 'quiet', False), getattr(self, 'store_log', None)
+        self.quiet, self.obs, self.store_log = True, {}, None
+        try:
+            h = entry.fork()
+            self.apply_havoc(h, lid, mods, smashed, induct, entry)
+            outs = list(self.rval(h, cond))
+            if (getattr(self, 'debug_loops', False) or DEBUG):
+                print('disequality_invariant', lid, [short(cv.t) for _s, cv in outs])
+            if len(outs) != 1:
+                return None
+            s2, cv = outs[0]
+            t = cv.t
+            if t[0] == 'lnot' and t[1][0] == 'eq':
+                t = ('ne', t[1][1], t[1][2])
+            if t[0] != 'ne':
+                return None
+            a, b = s2.canon(t[1]), s2.canon(t[2])
+            if a[0] == 'ptr' and b[0] == 'ptr' and a[1] == b[1]:
+                a, b = a[2], b[2]
+            elif a[0] in ('ptr', 'pset', 'fn') or b[0] in ('ptr', 'pset', 'fn'):
+                return None
+            l = lin_of(s2.canon(a)).add(lin_of(s2.canon(b)), -1)
+            if set(l.co) != {kterm}:
+                return None
+            co, c = l.co[kterm], l.k
+            if co > 0 and c <= 0 and (-c) % co == 0:
+                return Lin({kterm: co}, c)                    # co*k + c <= 0
+            if co < 0 and c >= 0 and c % (-co) == 0:
+                return Lin({kterm: -co}, -c)                  # -(co*k + c) <= 0
+            return None
+        except Exception:
+            return None
+        finally:
+            self.obs, self.quiet, self.store_log = saved_obs, saved_quiet, saved_log
 
     def condition_facts(self, h, cond, lid):
         """What the loop condition, when true at iteration k, establishes about k and loop-invariant quantities:
@@ -236,7 +311,7 @@ class LoopMachine(Machine):
         try:
             for s2, cv in self.rval(st.fork(), cond):
                 s_t, s_f = self.branch(s2, cv)
-                if getattr(self, 'debug_loops', False):
+                if (getattr(self, 'debug_loops', False) or DEBUG):
                     print('next_condition', short(cv.t), 'T' if s_t is not None else '-', 'F' if s_f is not None else '-')
                 if s_t is not None and not sharp_infeasible(s_t):
                     can_t = True
@@ -291,6 +366,28 @@ class LoopMachine(Machine):
             written_cells = dict(mods)
             # cells written only on leaving paths (break/return) are not loop-carried: every
             # continuing path of the most general iteration leaves them as they were
+            # A cell changed only on continuing paths that then fail the loop condition (`found = true` in
+            # `while (i < n && !found)`) is not loop-carried either: no iteration starts with the changed value.  Those
+            # paths leave the loop after the iteration; they are emitted as exits of the recorded iteration (late_cells).
+            reenters = {}
+
+            def can_reenter(s2):
+                if cond is None or not cond_first:
+                    return True
+                r = reenters.get(id(s2))
+                if r is None:
+                    r = False
+                    try:
+                        for s3, cv in self.rval(s2.fork(), cond):
+                            s_t, _sf = self.branch(s3, cv)
+                            if s_t is not None and not sharp_infeasible(s_t):
+                                r = True
+                                break
+                    except Exception:
+                        r = True
+                    reenters[id(s2)] = r
+                return r
+            late_cells = set()
             for (oid, key) in list(mods):
                 if oid in smashed:
                     continue
@@ -299,14 +396,19 @@ class LoopMachine(Machine):
                 if c0 is None:
                     continue
                 carried = False
+                late = False
                 for s2 in cont:
                     o2 = s2.objs.get(oid)
                     c2 = o2.cells.get(key) if o2 is not None else None
                     if c2 is None or c2[0] != c0[0] or s2.canon(c2[1]) != s2.canon(c0[1]):
-                        carried = True
-                        break
+                        if can_reenter(s2):
+                            carried = True
+                            break
+                        late = True
                 if not carried and cont:
                     del mods[(oid, key)]
+                    if late:
+                        late_cells.add((oid, key))
             # ---- affine induction variables: guess from the first iteration, then check inductively
             self.obs = {}
             h0 = entry.fork()
@@ -314,6 +416,25 @@ class LoopMachine(Machine):
             cont0, _b, _r, _e = self.one_iteration(h0, cond, inc, body, cond_first)
             cands = {}
             for (oid, key), (n, ty, _) in mods.items():
+                if ty is not None and ty.kind == 'ptr' and oid not in smashed and oid in entry.objs:
+                    init = entry.canon(mem.load_scalar(entry, entry.objs[oid].copy(), term_of_lin(Lin(dict(key[0]), key[1])), ty))
+                    if init != UNINIT and init[0] == 'ptr':
+                        step, okv = None, bool(cont0)
+                        for s2 in cont0:
+                            o2 = s2.objs.get(oid)
+                            cell = o2.cells.get(key) if o2 is not None else None
+                            v2 = s2.canon(cell[1]) if cell is not None else None
+                            if v2 is None or cell[0] != n or v2[0] != 'ptr' or v2[1] != init[1]:
+                                okv = False
+                                break
+                            l = lin_of(s2.canon(v2[2])).add(lin_of(s2.canon(init[2])), -1)
+                            if not l.is_const() or (step is not None and step != l.k):
+                                okv = False
+                                break
+                            step = l.k
+                        if okv and step:
+                            cands[(oid, key)] = ('ptr', init[1], init[2], step)
+                    continue
                 if ty is None or ty.kind != 'int' or oid in smashed or oid not in entry.objs:
                     continue
                 init = mem.load_scalar(entry, entry.objs[oid].copy(), term_of_lin(Lin(dict(key[0]), key[1])), ty)
@@ -335,7 +456,7 @@ class LoopMachine(Machine):
                     step = l.k
                 if okv and step:
                     cands[(oid, key)] = step
-                elif getattr(self, 'debug_loops', False):
+                elif (getattr(self, 'debug_loops', False) or DEBUG):
                     print('loop', lid, 'not a candidate', oid, key, 'init', short(entry.canon(init)), 'n', n, 'step', step, 'after', [(s2.objs[oid].cells[key][0], short(s2.canon(s2.objs[oid].cells[key][1])), repr(lin_of(s2.canon(s2.objs[oid].cells[key][1])).add(lin_of(entry.canon(init)), -1))) for s2 in cont0 if oid in s2.objs and key in s2.objs[oid].cells][:8])
             kterm = ('sym', 'iter:' + lid, 0, INF)
             for _round in range(6):
@@ -349,6 +470,21 @@ class LoopMachine(Machine):
                 badc = set()
                 for (oid, key), step in cands.items():
                     n, ty, _ = mods[(oid, key)]
+                    if isinstance(step, tuple):
+                        _tag, tgt, off0, pstep = step
+                        expect = lin_of(entry.canon(off0)).add(Lin({kterm: pstep}, pstep))
+                        for s2 in contv:
+                            o2 = s2.objs.get(oid)
+                            cell = o2.cells.get(key) if o2 is not None else None
+                            v2 = s2.canon(cell[1]) if cell is not None else None
+                            if v2 is None or cell[0] != n or v2[0] != 'ptr' or v2[1] != tgt:
+                                badc.add((oid, key))
+                                break
+                            l = lin_of(s2.canon(v2[2])).add(lin_of(s2.canon(term_of_lin(expect))), -1)
+                            if not (l.is_const() and l.k == 0):
+                                badc.add((oid, key))
+                                break
+                        continue
                     init = mem.load_scalar(entry, entry.objs[oid].copy(), term_of_lin(Lin(dict(key[0]), key[1])), ty)
                     expect = lin_of(entry.canon(init)).add(Lin({kterm: step}, step))
                     for s2 in contv:
@@ -359,19 +495,25 @@ class LoopMachine(Machine):
                             break
                         l = lin_of(s2.canon(cell[1])).add(lin_of(s2.canon(term_of_lin(expect))), -1)
                         if not (l.is_const() and l.k == 0):
-                            if getattr(self, 'debug_loops', False):
+                            if (getattr(self, 'debug_loops', False) or DEBUG):
                                 print('   cell', short(s2.canon(cell[1])), 'expected', expect, [repr(f) for f in s2.facts])
                             badc.add((oid, key))
                             break
                 if not badc:
                     break
-                if getattr(self, 'debug_loops', False):
+                if (getattr(self, 'debug_loops', False) or DEBUG):
                     print('loop', lid, 'candidates rejected', badc, 'of', cands)
                 for c in badc:
                     del cands[c]
             else:
                 cands = {}
             induct = cands
+            self.loop_invs = dict(getattr(self, 'loop_invs', {}))
+            self.loop_invs.pop(lid, None)
+            if induct and cond is not None and cond_first:
+                inv = self.disequality_invariant(entry, lid, mods, smashed, induct, cond)
+                if inv is not None:
+                    self.loop_invs[lid] = inv
             # ---- probe run with the closed forms: where do symbolic-offset stores land?
             symstores = []
             k2dom = None
@@ -439,9 +581,47 @@ class LoopMachine(Machine):
         live_before = set(oid for oid, o in h.objs.items() if o.heap and o.live)
         iter_start = h.fork() if getattr(self, 'keep_iter_states', False) else None
         prev_facts = self.condition_facts(h, cond, lid) if (cond is not None and cond_first and induct) else None
+        head_vals = {}
+        for (oid, key) in late_cells:
+            o0 = h.objs.get(oid)
+            c0 = o0.cells.get(key) if o0 is not None else None
+            head_vals[(oid, key)] = (c0[0], h.canon(c0[1])) if c0 is not None else None
         cont, brk, ret, exitf = self.one_iteration(h, cond, inc, body, cond_first)
         if prev_facts:
             exitf = self.apply_previous_condition(exitf, prev_facts, lid)
+        late_exits = []
+        if late_cells:
+            # continuing paths that changed a not-carried cell: they cannot start another iteration (checked above for the
+            # most general iteration, re-checked here), so they leave through the condition right after this iteration
+            keep = []
+            for s2 in cont:
+                changed = False
+                for (oid, key), hv_ in head_vals.items():
+                    o2 = s2.objs.get(oid)
+                    c2 = o2.cells.get(key) if o2 is not None else None
+                    if hv_ is None or c2 is None or c2[0] != hv_[0] or s2.canon(c2[1]) != s2.canon(hv_[1]):
+                        changed = True
+                        break
+                if not changed:
+                    keep.append(s2)
+                    continue
+                saved_obs2, saved_quiet2 = self.obs, getattr(self, 'quiet', False)
+                self.quiet, self.obs = True, {}
+                try:
+                    for s3, cv in self.rval(s2.fork(), cond):
+                        s_t, s_f = self.branch(s3, cv)
+                        if s_t is not None and not sharp_infeasible(s_t):
+                            raise AnalysisBroken('loop %s: a path that changes a cell assumed not loop-carried can start another iteration' % lid)
+                        if s_f is not None:
+                            s_f.trace = s2.trace
+                            late_exits.append(s_f)
+                finally:
+                    self.obs, self.quiet = saved_obs2, saved_quiet2
+            cont = keep
+            for s_f in late_exits:
+                s_f.tags = dict(s_f.tags)
+                s_f.tags['late-exit:' + lid] = True
+            brk = list(brk) + late_exits          # "leaves after this iteration", like a break at its end
         iter_traces = set()
         keep = getattr(self, 'keep_iter_states', False)
         snap_states = []
@@ -503,7 +683,7 @@ class LoopMachine(Machine):
             outs.append((s2, ctl))
         info = getattr(self, 'loop_info', None)
         if info is not None:
-            info[lid] = {'induction': {('%s%s' % (oid, key[1])): st_ for (oid, key), st_ in induct.items()},
+            info[lid] = {'induction': {('%s%s' % (oid, key[1])): (st_[3] if isinstance(st_, tuple) else st_) for (oid, key), st_ in induct.items()},
                          'modified': sorted('%s+%s' % (oid, key[1]) for (oid, key) in mods),
                          'smashed': sorted(smashed), 'iter_traces': len(iter_traces), 'node': s,
                          'iter_states': snap_states if keep else None, 'iter_start': iter_start, 'exit_snaps': exit_snaps,
@@ -536,10 +716,18 @@ class LoopMachine(Machine):
                                 cands.append(x)
                     elif t not in cands:
                         cands.append(t)
-                if any(c[0] not in ('ptr', 'c', 'fn') for c in cands) or not cands:
+                pind = (induct or {}).get((oid, key))
+                if pind is not None and isinstance(pind, tuple):
+                    # pointer induction variable: base + step * k inside one object
+                    _tag, tgt, off0, step = pind
+                    val = ('ptr', tgt, self.simp(('add', off0, ('mul', C(step), kterm))))
+                elif any(c[0] not in ('ptr', 'c', 'fn') for c in cands) or not cands:
                     val = ('sym', 'unkptr:loop:%s' % lid, 0, INF)
                 elif len(cands) == 1:
                     val = cands[0]
+                elif len(cands) >= 2 and all(c[0] == 'ptr' and c[1] == cands[0][1] for c in cands):
+                    # a cursor stepping through one object: "somewhere in it" (keeps the discovery finite)
+                    val = ('ptr', cands[0][1], ('sym', 'hvoff:%s:%s+%s' % (lid, oid, key[1]), 0, INF))
                 else:
                     val = ('pset', ('sym', '%s:%s+%s' % (lid, oid, key[1]), 0, 0), tuple(cands))
                 mem.kill_range(h, o, key[0], key[1], n)
@@ -547,7 +735,7 @@ class LoopMachine(Machine):
                 continue
             if ty is not None and ty.kind == 'int':
                 lo, hi = ty.minmax()
-                if induct and (oid, key) in induct and init is not None and init != UNINIT:
+                if induct and (oid, key) in induct and not isinstance(induct[(oid, key)], tuple) and init is not None and init != UNINIT:
                     step = induct[(oid, key)]
                     val = self.simp(('add', init, ('mul', C(step), kterm)))
                     # the variable holds a value of its type at the start of every iteration
@@ -574,6 +762,12 @@ class LoopMachine(Machine):
             for k in [k for k in o.cells if k[0]]:
                 del o.cells[k]
             mem.add_region(o, ((), 0), o.size, 'loop:' + lid)
+        if induct:
+            inv = getattr(self, 'loop_invs', {}).get(lid)
+            if inv is not None:
+                if len(inv.co) == 1 and kterm in inv.co and inv.co[kterm] > 0:
+                    h.refine(kterm, Dom(0, (-inv.k) // inv.co[kterm]))
+                h.add_fact(inv)
 
 
 def loop_invariant(atom, lid):
